@@ -365,82 +365,213 @@ func c05TreeErrors(w *World, r *Report) {
 		}
 	}
 	runErr := w.Field("xpath", "Result", "runErr")
-	execError := w.Method("xpath", "context", "execError")
-	n := 0
+	execError := w.SSAFunc(w.Method("xpath", "context", "execError"))
+	var all []*ssa.Function
 	for _, fd := range funcDecls(p) {
 		if isTestFile(w, fd.Pos()) {
 			continue
 		}
-		var visit func(list []ast.Stmt, owner string)
-		visit = func(list []ast.Stmt, owner string) {
-			for i, s := range list {
-				as, isA := s.(*ast.AssignStmt)
-				if isA && len(as.Rhs) == 1 && len(as.Lhs) == 2 {
-					if ce, isC := as.Rhs[0].(*ast.CallExpr); isC && errMeth[calleeOf(p, ce)] {
-						n++
-						c := fmt.Sprintf("%s: %s error #%d", owner, calleeOf(p, ce).Name(), n)
-						errObj := objOfIdent(p, as.Lhs[1])
-						valObj := objOfIdent(p, as.Lhs[0])
-						good := false
-						why := "the error result is not tested immediately after the call"
-						if errObj != nil && i+1 < len(list) {
-							if is, isIf := list[i+1].(*ast.IfStmt); isIf {
-								if be, isB := ast.Unparen(is.Cond).(*ast.BinaryExpr); isB && be.Op == token.NEQ && objOfIdent(p, be.X) == errObj && isNilIdent(p, be.Y) {
-									stores := false
-									for _, a := range assignsToField(p, is.Body, runErr) {
-										if x, ok := a.(*ast.AssignStmt); ok && len(x.Rhs) == 1 && objOfIdent(p, x.Rhs[0]) == errObj {
-											stores = true
-										}
-									}
-									raises := len(callsTo(p, is.Body, execError)) > 0
-									leaves := false
-									if k := len(is.Body.List); k > 0 {
-										_, leaves = is.Body.List[k-1].(*ast.ReturnStmt)
-									}
-									usesVal := false
-									ast.Inspect(is.Body, func(x ast.Node) bool {
-										if id, ok := x.(*ast.Ident); ok && valObj != nil && p.TypesInfo.Uses[id] == valObj {
-											usesVal = true
-										}
-										return true
-									})
-									switch {
-									case usesVal:
-										why = "the value result is used on the error arm"
-									case raises:
-										good = true // execError panics: nothing after it runs
-									case stores && leaves:
-										good = true
-									default:
-										why = "the non-nil arm neither stores the error in runErr and returns, nor raises execError"
-									}
-								}
-							}
-						}
-						r.Check(good, "R05.3", c, ce.Pos(), "tested; stored or raised; value unused on the error arm", why+": the tree's error is lost or a fabricated value is used")
-					}
+		obj, _ := p.TypesInfo.Defs[fd.Name].(*types.Func)
+		if f := w.SSAFunc(obj); f != nil {
+			all = append(all, f)
+			var anon func(g *ssa.Function)
+			anon = func(g *ssa.Function) {
+				for _, a := range g.AnonFuncs {
+					all = append(all, a)
+					anon(a)
 				}
-				// descend
-				ast.Inspect(s, func(x ast.Node) bool {
-					switch b := x.(type) {
-					case *ast.FuncLit:
-						visit(b.Body.List, owner)
-						return false
-					case *ast.BlockStmt:
-						if ast.Node(b) != ast.Node(s) {
-							visit(b.List, owner)
-							return false
-						}
-					case *ast.CaseClause:
-						visit(b.Body, owner)
-						return false
-					}
-					return true
-				})
+			}
+			anon(f)
+		}
+	}
+	h := &c05ErrFlow{all: all, runErr: runErr, execError: execError}
+	ord := map[string]int{}
+	for _, f := range all {
+		for _, b := range f.Blocks {
+			for _, in := range b.Instrs {
+				c, ok := in.(*ssa.Call)
+				if !ok || !c.Call.IsInvoke() || !errMeth[c.Call.Method] {
+					continue
+				}
+				owner := f
+				for owner.Parent() != nil {
+					owner = owner.Parent()
+				}
+				k := funcKey(owner) + ": " + c.Call.Method.Name()
+				ord[k]++
+				why := h.handled(c, 1, 0)
+				r.Check(why == "", "R05.3", fmt.Sprintf("%s error #%d", k, ord[k]), c.Pos(), "tested; stored, raised or handed to callers that do; value unused on the error arm", why+": the tree's error is lost or a fabricated value is used")
 			}
 		}
-		visit(fd.Body.List, funcDeclName(fd))
 	}
+}
+
+// c05ErrFlow follows one (value, error) call result: the error is tested
+// against nil, and the arm it is non-nil on stores it in runErr and leaves,
+// raises execError, or returns it from a helper all of whose callers do one
+// of these in turn; no other result of the call is used on that arm.
+type c05ErrFlow struct {
+	all       []*ssa.Function
+	runErr    *types.Var
+	execError *ssa.Function
+}
+
+func (h *c05ErrFlow) handled(c *ssa.Call, errIdx, depth int) string {
+	if depth > 3 {
+		return "the error is handed on through more than three helpers"
+	}
+	f := c.Parent()
+	var e ssa.Value
+	var vals []ssa.Value
+	for _, ref := range *c.Referrers() {
+		if ex, ok := ref.(*ssa.Extract); ok {
+			if ex.Index == errIdx {
+				e = ex
+			} else {
+				vals = append(vals, ex)
+			}
+		}
+	}
+	if e == nil {
+		return "the error result is discarded"
+	}
+	tested := false
+	for _, ref := range *e.Referrers() {
+		switch x := ref.(type) {
+		case *ssa.BinOp:
+			if (x.Op != token.NEQ && x.Op != token.EQL) || !(isNilConst(x.X) || isNilConst(x.Y)) {
+				continue
+			}
+			for _, u := range *x.Referrers() {
+				br, ok := u.(*ssa.If)
+				if !ok {
+					return "the nil test of the error is not branched on directly"
+				}
+				arm := br.Block().Succs[0]
+				if x.Op == token.EQL {
+					arm = br.Block().Succs[1]
+				}
+				tested = true
+				if why := h.arm(f, arm, e, vals, depth); why != "" {
+					return why
+				}
+			}
+		case *ssa.Return:
+			// handed on untested together with the value: the callers decide
+			k := -1
+			for i, rv := range x.Results {
+				if unspill(rv) == e {
+					k = i
+				}
+			}
+			if k < 0 {
+				continue
+			}
+			tested = true
+			if why := h.callers(f, k, depth); why != "" {
+				return why
+			}
+		}
+	}
+	if !tested {
+		return "the error result is not tested after the call"
+	}
+	return ""
+}
+
+func fieldAddrVar(fa *ssa.FieldAddr) *types.Var {
+	if pt, ok := fa.X.Type().Underlying().(*types.Pointer); ok {
+		if st, ok := pt.Elem().Underlying().(*types.Struct); ok {
+			return st.Field(fa.Field)
+		}
+	}
+	return nil
+}
+
+func (h *c05ErrFlow) arm(f *ssa.Function, arm *ssa.BasicBlock, e ssa.Value, vals []ssa.Value, depth int) string {
+	if len(arm.Preds) != 1 {
+		return "the non-nil arm is shared with the normal path"
+	}
+	stores, raises, leaves := false, false, true
+	retIdx, retAll, rets := -1, true, 0
+	for _, b := range f.Blocks {
+		if !arm.Dominates(b) {
+			continue
+		}
+		for _, sc := range b.Succs {
+			if !arm.Dominates(sc) {
+				leaves = false
+			}
+		}
+		for _, in := range b.Instrs {
+			for _, op := range in.Operands(nil) {
+				for _, v := range vals {
+					if *op == v {
+						return "the value result is used on the error arm"
+					}
+				}
+			}
+			switch x := in.(type) {
+			case *ssa.Store:
+				if fa, ok := x.Addr.(*ssa.FieldAddr); ok && fieldAddrVar(fa) == h.runErr && x.Val == e {
+					stores = true
+				}
+			case *ssa.Call:
+				if x.Call.StaticCallee() == h.execError && h.execError != nil {
+					raises = true
+				}
+			case *ssa.Return:
+				rets++
+				k := -1
+				for i, rv := range x.Results {
+					if unspill(rv) == e {
+						k = i
+					}
+				}
+				if k < 0 || (retIdx >= 0 && retIdx != k) {
+					retAll = false
+				}
+				retIdx = k
+			}
+		}
+	}
+	switch {
+	case raises:
+		return "" // execError panics: nothing after it runs
+	case stores && leaves:
+		return ""
+	case leaves && rets > 0 && retAll && retIdx >= 0:
+		return h.callers(f, retIdx, depth)
+	}
+	return "the non-nil arm neither stores the error in runErr and returns, nor raises execError, nor returns it to callers that do"
+}
+
+func (h *c05ErrFlow) callers(f *ssa.Function, idx, depth int) string {
+	if f.Parent() != nil {
+		return "the error is returned from a function literal"
+	}
+	for _, g := range h.all {
+		for _, b := range g.Blocks {
+			for _, in := range b.Instrs {
+				for _, op := range in.Operands(nil) {
+					if *op != ssa.Value(f) {
+						continue
+					}
+					c, ok := in.(*ssa.Call)
+					if !ok || c.Call.StaticCallee() != f {
+						return "the helper returning the error is used as a value in " + funcKey(g)
+					}
+					if f.Signature.Results().Len() == 1 {
+						return "the helper returns the error alone; its callers are not followed"
+					}
+					if why := h.handled(c, idx, depth+1); why != "" {
+						return why + " (in " + funcKey(g) + ", which receives it from " + funcKey(f) + ")"
+					}
+				}
+			}
+		}
+	}
+	return ""
 }
 
 // ---------------- R05.5 ----------------
